@@ -2,6 +2,9 @@
 // Masks of LWE samples live in guard-page buffers so the hand-written AVX2 tail code faults on any overrun.
 #include "vh.hpp"
 #include "heap_phase.hpp"
+#include <thread>
+#include <atomic>
+#include <sched.h>
 VH_MAIN_GLOBALS
 using namespace vh;
 
@@ -223,6 +226,49 @@ static std::vector<int> parse_list(const std::string &s) {
     return v;
 }
 
+static void ref_tlwe_phase_flat(std::vector<U> &ph, const TLweSample *c, const int32_t *key, int N, int k) {
+    ph.resize(N); for (int j = 0; j < N; j++) ph[j] = (U) c->a[k].coefsT[j];
+    std::vector<U> t; for (int i = 0; i < k; i++) { ref_negacyclic(t, key + i * N, c->a[i].coefsT, N); for (int j = 0; j < N; j++) ph[j] -= t[j]; }
+}
+// several threads at once, each with its own dimensions: LWE linear operations (own n), TLWE linear operations and extraction (own
+// N, k); every result judged by thread-local exact phase arithmetic
+static void threads_mode(uint64_t seed, int T, int iters) {
+    const int ns[] = {1, 7, 8, 9, 33, 500, 630, 12, 1024, 5, 17, 64}; const int Ns[] = {2, 16, 64, 3, 1024, 100, 8, 512};
+    std::atomic<uint64_t> bad{0}, calls{0}; std::atomic<int> ready{0};
+    struct Wit { const char *fn; int dim; }; std::vector<Wit> wit(T, Wit{nullptr, 0});
+    std::vector<std::thread> th;
+    for (int t = 0; t < T; t++) th.emplace_back([&, t] {
+        Rng r(seed * 4801 + t); const int n = ns[t % 12], N = Ns[t % 8], k = 1 + t % 2;
+        LweParams *P = new_LweParams(n, 0.001, 0.25); LweSample *a = new_LweSample(P), *b = new_LweSample(P), *c = new_LweSample(P);
+        TLweParams *TP = new_TLweParams(N, k, 0.001, 0.25); TLweSample *ta = new_TLweSample(TP), *tb = new_TLweSample(TP); LweSample *ex = new_LweSample(&TP->extracted_lweparams);
+        std::vector<int32_t> key(n), tkey(k * N), ext(k * N); for (auto &x: key) x = (int32_t) r.below(2); for (auto &x: tkey) x = (int32_t) r.below(2);
+        // extracted key: coefficient order of tLweExtractKey (key i, coefficient j -> i*N + j)
+        for (int i = 0; i < k * N; i++) ext[i] = tkey[i];
+        auto fail = [&](const char *fn, int dim) { if (bad++ == 0) wit[t] = Wit{fn, dim}; };
+        ready++; while (ready.load() < T) sched_yield();
+        for (int it = 0; it < iters; it++) {
+            for (int i = 0; i < n; i++) { a->a[i] = r.i32(); b->a[i] = r.i32(); } a->b = r.i32(); b->b = r.i32(); a->current_variance = b->current_variance = 1e-6;
+            U pa = ref_lwe_phase(a, key.data(), n), pb = ref_lwe_phase(b, key.data(), n); int32_t p = it % 5 == 0 ? 2 : it % 5 == 1 ? -2 : (int32_t) r.range(-32767, 32767);
+            lweCopy(c, a, P); lweAddMulTo(c, p, b, P); if (ref_lwe_phase(c, key.data(), n) != pa + (U) p * pb) fail("lweAddMulTo", n);
+            lweCopy(c, a, P); lweSubTo(c, b, P); if (ref_lwe_phase(c, key.data(), n) != pa - pb) fail("lweSubTo", n);
+            lweNegate(c, a, P); if (ref_lwe_phase(c, key.data(), n) != (U) 0 - pa) fail("lweNegate", n);
+            for (int i = 0; i <= k; i++) for (int j = 0; j < N; j++) { ta->a[i].coefsT[j] = r.i32(); tb->a[i].coefsT[j] = r.i32(); } ta->current_variance = tb->current_variance = 1e-6;
+            std::vector<U> ph, phb; ref_tlwe_phase_flat(ph, ta, tkey.data(), N, k); ref_tlwe_phase_flat(phb, tb, tkey.data(), N, k);
+            int j = (int) r.below(N); tLweExtractLweSampleIndex(ex, ta, j, &TP->extracted_lweparams, TP);
+            if (ref_lwe_phase(ex, ext.data(), k * N) != ph[j]) fail("tLweExtractLweSampleIndex", N);
+            tLweAddTo(ta, tb, TP); std::vector<U> ps; ref_tlwe_phase_flat(ps, ta, tkey.data(), N, k);
+            for (int q = 0; q < N; q++) if (ps[q] != ph[q] + phb[q]) { fail("tLweAddTo", N); break; }
+            calls += 5;
+        }
+        delete_LweSample(ex); delete_TLweSample(tb); delete_TLweSample(ta); delete_TLweParams(TP); delete_LweSample(c); delete_LweSample(b); delete_LweSample(a); delete_LweParams(P);
+    });
+    for (auto &x: th) x.join();
+    out.evaluations += calls.load();
+    if (bad.load()) for (auto &w: wit) if (w.fn) { out.viol(std::string("lwe-linear:") + w.fn + ":when-threads-use-different-dimensions", J().s("fn", w.fn).i("dimension", w.dim).i("threads", T).u("bad_results", bad.load())); break; }
+    char cell[96]; snprintf(cell, sizeof cell, "threads:%d-threads-each-with-its-own-dimensions", T); out.cell(cell, calls.load());
+    out.sample(J().s("mode", "threads").i("threads", T).i("iterations_per_thread", iters));
+}
+
 int main(int argc, char **argv) {
     Args args(argc, argv);
     out.open(args.s("out", "-"));
@@ -235,6 +281,7 @@ int main(int argc, char **argv) {
     { int hp = args.i("heapphase", -1); set_heap_phase(hp); out.cell(hp == 100 ? "heap:blocks-spread-over-distant-regions" : hp < 0 ? "heap:as-malloc-places-it" : "heap:fixed-residue-mod-32"); }
     // process history: the same operations in other dimensions come first
     if (args.i("prelude", 0)) { lwe_ops(13, 2); lwe_ops(6, 2); tlwe_ops(32, 2, 1); extraction(4, 3, 1); out.cell("history:other-dimensions-used-first-in-this-process"); }
+    if (mode == "threads") { threads_mode(seed, args.i("threads", 12), reps); out.finish(); return 0; }
     if (mode == "lwe") {
         for (int n: parse_list(args.s("n", "1,2,3"))) lwe_ops(n, reps);
         out.sample(J().s("mode", "lwe").s("n", args.s("n")).i("reps", reps).s("ops", "AddTo,SubTo,AddMulTo,SubMulTo,Copy,Negate,Clear,NoiselessTrivial,aliased AddTo/SubTo/Negate/AddMulTo,lwePhase").s("p_values", "0,+-1,+-2,+-32767,INT32_MIN,INT32_MAX,random"));
